@@ -202,7 +202,7 @@ func cmdCheck(args []string) int {
 	sem := make(chan struct{}, 8)
 	for _, k := range keys {
 		c := P.CS.Funcs[k]
-		if c.Trusted && len(c.SQLTexts) > 0 && hasProp(c.Props, *prop) {
+		if c.Trusted && len(c.SQLTexts)+len(c.ConstTexts) > 0 && hasProp(c.Props, *prop) {
 			if fn := P.FindFunc(c.PkgPath, c.Key); fn != nil {
 				reports = append(reports, CheckSQLPins(P, fn, c))
 			} else {
@@ -256,6 +256,20 @@ func cmdCheck(args []string) int {
 		}
 	}
 	wg.Wait()
+	// a trusted data-access function whose assumed contract was used by any function checked above has its SQL
+	// pinned in this run too, whatever properties its own block lists
+	for _, k := range keys {
+		c := P.CS.Funcs[k]
+		if c.Trusted && len(c.SQLTexts) > 0 && c.Used && !hasProp(c.Props, *prop) {
+			if fn := P.FindFunc(c.PkgPath, c.Key); fn != nil {
+				rep := CheckSQLPins(P, fn, c)
+				for _, o := range rep.Obligations {
+					o.Props = []string{*prop}
+				}
+				reports = append(reports, rep)
+			}
+		}
+	}
 	for _, l := range P.CS.Lemmas {
 		if hasProp(l.Props, *prop) && (*only == "" || strings.Contains(l.Name, *only)) {
 			reports = append(reports, CheckLemma(P, l, l.PkgPath))
